@@ -356,6 +356,9 @@ def expand_closures(text, root, record):
             raise LookupError("anchor lost: closure %r in %s has no block body" % (head, locator))
         b1 = match_brace(mask, b0)
         body = item[b0:b1 + 1]
+        if head.startswith("for ") or head.startswith("while "):
+            # a loop statement: keep its head, wrap the whole statement in the new function
+            body = "{\n" + head + " " + body + "\n}"
         record.append({"source": ("src/" + rel) if not rel.startswith("src/") else rel, "item": locator + " / closure " + head,
                        "sha256_of_source_span": sha256(body), "renamed_to": sig, "substitutions": []})
         return sig + " " + body
@@ -806,7 +809,8 @@ def apply_splice(item, sp, applied, locator):
         if kind == "after-signature":
             return item[:k] + "\n" + sp["text"] + item[k:]
         return item[: k + 1] + "\n" + sp["text"] + item[k + 1:]
-    if kind == "loop":
+    if kind in ("loop", "loop?"):
+        optional = kind == "loop?"
         fn, _, ordinal = arg.partition("#")
         ordinal = int(ordinal or "1")
         m = re.search(r"\bfn\s+" + re.escape(fn) + r"\b", mask)
@@ -816,6 +820,9 @@ def apply_splice(item, sp, applied, locator):
         k1 = match_brace(mask, k0)
         loops = [mm for mm in re.finditer(r"\b(while|for|loop)\b", mask[k0:k1])]
         if len(loops) < ordinal:
+            if optional:
+                applied.append("optional loop invariant for %s#%d not applied (loop no longer present)" % (fn, ordinal))
+                return item
             raise LookupError("anchor lost: loop #%d of %s" % (ordinal, fn))
         lm = loops[ordinal - 1]
         k = k0 + lm.end()
